@@ -85,6 +85,9 @@ type probe struct {
 	msgs      []eth.Hash
 	msgAt     map[eth.Hash]int64
 	evFrom    []uint64 // extra from-blocks for the event queries
+	// fullHash: ask the full state question set (every address: nonce, storage; classes) also through StateAtBlockHash;
+	// otherwise the by-hash readers get the short list (cost) and the full one is asked by number only
+	fullHash bool
 }
 
 var (
@@ -224,7 +227,7 @@ func observe(bc *blockchain.Blockchain, p *probe) *obs {
 		}
 		sr, cl, err := bc.StateAtBlockHash(&bhash)
 		o.put(q("StateAtBlockHash"), skind, blk, err, "ok")
-		observeState(o, q("StateAtBlockHash"), skind, blk, sr, err, false)
+		observeState(o, q("StateAtBlockHash"), skind, blk, sr, err, p.fullHash)
 		if err == nil {
 			cl()
 		}
